@@ -37,6 +37,16 @@ CHECKS = {
             'The automaton is not larger than the real system (argued in DESIGN.md Appendix A); '
             'tokens model script hashes.',
             'DESIGN.md §3 C20, Appendix A'),
+    'C19': ('exploration',
+            'Hypothesis-generated peer populations and JSON feature dictionaries against '
+            'set-level validity predicates (ipaddress + own hostname grammar)',
+            'Generated peer populations with shared address buckets and every kind of ineligible '
+            'peer are run through on_peers_subscribe and each returned entry, bucket count and the '
+            'onion bound are judged by the harness\'s own predicates; generated JSON feature '
+            'dictionaries are run through peers_from_features. Sampled.',
+            'stdlib ipaddress classification; bool ports tolerated; resolution of hostnames not '
+            'judged.',
+            'DESIGN.md §3 C19'),
 }
 
 NOT_BUILT = {}
